@@ -305,7 +305,7 @@ func (x *Exec) memFrame(ftype *ast.FuncType, fd *ast.FuncDecl, body *ast.BlockSt
 				}
 				q := fn.Pkg().Name() + "." + fn.Name()
 				switch q {
-				case "sort.Sort", "sort.Stable", "sort.Slice", "sort.SliceStable", "sort.Strings", "sort.Ints", "slices.Sort", "slices.SortFunc", "slices.SortStableFunc", "slices.Reverse", "rand.Shuffle":
+				case "sort.Sort", "sort.Stable", "sort.Slice", "sort.SliceStable", "sort.Strings", "sort.Ints", "slices.Sort", "slices.SortFunc", "slices.SortStableFunc", "slices.Reverse", "rand.Shuffle", "natsort.Sort":
 					if len(s.Args) > 0 {
 						sites++
 						if derived(s.Args[0]) {
@@ -374,7 +374,7 @@ func (x *Exec) memFrame(ftype *ast.FuncType, fd *ast.FuncDecl, body *ast.BlockSt
 		}
 		for i, o := range offenders {
 			x.obls = append(x.obls, &Obligation{Name: fmt.Sprintf("%s#memframe:%s:%d", x.fullKey, pname, i), Kind: "frame", Func: x.fullKey, PC: tTrue, Goal: tFalse, syntactic: true,
-				Text: fmt.Sprintf("in-place write to memory reachable from %s: %s (holders of earlier copies, e.g. clones sharing token storage, would see it change)", pname, o)})
+				Text: fmt.Sprintf("in-place write to memory reachable from %s: %s (whoever else holds that memory would see it change)", pname, o)})
 		}
 	}
 }
